@@ -10,7 +10,8 @@ EXPLANATION = ("planArc: for symbolic start, centre offset, end point and direct
                "point) are at most one unit apart (lemma chain: squared distance = r^2(2-2cos inc) <= (r inc)^2 <= 1), the angle advances "
                "by the constant increment inc with inc*n = sweep, n >= 1, the sweep is in [-2pi,0) for G2 and [0,2pi] for G3, and the list "
                "ends exactly at the commanded end point. computeArcCenterOffsets: centre at distance |R| from both end points (known "
-               "finding F9 for oblique chords). _handle_G2/_G3 hand exactly planArc's points to processLinearMoves, whose any-point test "
+               "finding F9 for oblique chords), on the side of the chord that makes the commanded direction the short way round iff "
+               "R > 0 (enforced for vertical chords; for every other chord the same F9 defect puts it on the wrong side: known finding). _handle_G2/_G3 hand exactly planArc's points to processLinearMoves, whose any-point test "
                "(isAnyPointExcluded, loop invariant over the pairs) excludes the arc if any sample is excluded. cos/sin/atan2 are "
                "uninterpreted with the identities listed under A2, instantiated only at the terms that occur.")
 EXTRA_ASSUMPTIONS = ["the spacing clause between the LAST computed sample and the commanded end point is not claimed (it needs the end point to lie on the circle, which G-code does not guarantee)"]
